@@ -70,7 +70,7 @@ def build_model():
     stamp = os.path.join(BUILD, "model.stamp")
     if os.path.exists(exe) and os.path.exists(stamp) and open(stamp).read() == tag:
         return exe
-    ok, log = coq_make(["Api.vo", "ArdApi.vo"])
+    ok, log = coq_make(["Api.vo", "ArdApi.vo", "ModelTools.vo"])
     if not ok:
         raise RuntimeError("Coq model does not build:\n" + log[-3000:])
     d = os.path.join(BUILD, "extract")
